@@ -865,6 +865,21 @@ func genGuard(w *bufio.Writer, r *hx.Rng, n int) {
 		target := []int64{9999992, 10000000, 10000001, 10000008, 9999993}[i%5]
 		fmt.Fprintf(w, "MACHO signguard %s %d %d\n", hx.Hex(f), hash, target-base)
 	}
+	// the reuse branch (fix F-MACHO-3b): an image whose LC_CODE_SIGNATURE names a region of 10000000 / 10000001 / 10000008
+	// bytes, at least as large as the estimate.  The region itself is cut off the op (a 10 MB image does not fit the tier;
+	// scanFile never looks at the file size): above the limit Sign refuses before it reads anything (err signtoolarge), at the
+	// limit it goes on and fails on the missing old signature (err oldsig).  The complete image is replayed by cmd/machobig reuse.
+	for _, region := range []int{10000000, 10000001, 10000008} {
+		p := Params{Is64: true, TextSize: 4096, Slack: 64, LinkEdit: 64, Sections: 1, OldSig: region}
+		f := Build(r, p, nil)
+		m, err := machos.VerifScan(f)
+		if err != nil || int(m.SigStart)+16 > len(f) {
+			continue
+		}
+		f = f[:int(m.SigStart)+16]
+		fmt.Fprintf(w, "MACHO scan %s\n", hx.Hex(f))
+		fmt.Fprintf(w, "MACHO sign %s 5 65536 %s %s n n p256\n", hx.Hex(f), hx.Hex([]byte("com.example.reuse")), hx.Hex(emptyReqSet))
+	}
 }
 
 func Gen(w *bufio.Writer, seed uint64, tier string, prop string) {
